@@ -27,6 +27,7 @@ type inputString struct {
 	pointer int
 	eof     bool
 	length  int
+	offsets []int // byte offset in s of every code point in runes, computed on first use
 }
 
 func newInputString(s string) *inputString {
@@ -59,12 +60,15 @@ func (i *inputString) currentIsInvalid() bool {
 // currentByteOffset returns the offset in s of the code point at pointer.
 // Every invalid byte in s is one U+FFFD in runes, so the offset can't be computed from the runes.
 func (i *inputString) currentByteOffset() int {
-	var pos int
-	for j := 0; j < i.pointer; j++ {
-		_, size := utf8.DecodeRuneInString(i.s[pos:])
-		pos += size
+	if i.offsets == nil {
+		// ranging over a string decodes it exactly like the conversion to []rune: one U+FFFD per invalid byte
+		i.offsets = make([]int, 0, i.length+1)
+		for pos := range i.s {
+			i.offsets = append(i.offsets, pos)
+		}
+		i.offsets = append(i.offsets, len(i.s))
 	}
-	return pos
+	return i.offsets[i.pointer]
 }
 
 func (i *inputString) getCurrentAsByte() byte {
